@@ -216,6 +216,8 @@ define_ops! {
     from_str_radix = |s: ST, r: W| Uint::<B, L>::from_str_radix(&s, r).ok();
     try_from_be_slice = |s: BY| Uint::<B, L>::try_from_be_slice(&s);
     try_from_le_slice = |s: BY| Uint::<B, L>::try_from_le_slice(&s);
+    type_consts = | | (Uint::<B, L>::BITS, Uint::<B, L>::LIMBS, Uint::<B, L>::MASK, Uint::<B, L>::BYTES, Bits::<B, L>::BITS, Bits::<B, L>::LIMBS, Bits::<B, L>::BYTES);
+    helper_fns = |b: N| (ruint::nlimbs(b), ruint::mask(b), ruint::nbytes(b));
     consts = | | (Uint::<B, L>::ZERO, Uint::<B, L>::ONE, Uint::<B, L>::MIN, Uint::<B, L>::MAX, Uint::<B, L>::default(), Bits::<B, L>::ZERO.into_inner());
     // ---- part 3: generators driven by enumerated tapes
     rand08_standard = |t: BY| { use rand_08::distributions::Distribution; let x: Uint<B, L> = rand_08::distributions::Standard.sample(&mut Tape { t, i: 0 }); x };
@@ -613,6 +615,12 @@ fn model(bits: usize, op: Op, args: &[V]) -> Expect {
             let v = if op == try_from_be_slice { BigUint::from_bytes_be(sb) } else { BigUint::from_bytes_le(sb) };
             is(if sb.len() <= (bits + 7) / 8 && v < m { V::some(u(&v, bits)) } else { V::None }).nt(v >= m)
         }
+        type_consts => is(V::T(vec![V::n(bits), V::n(nlimbs(bits)), V::N(mask(bits) as u128), V::n((bits + 7) / 8), V::n(bits), V::n(nlimbs(bits)), V::n((bits + 7) / 8)])).nt(true),
+        helper_fns => {
+            let b = args[0].as_n() as usize;
+            let mk: u128 = if b == 0 { 0 } else if b % 64 == 0 { u64::MAX as u128 } else { (1u128 << (b % 64)) - 1 };
+            is(V::T(vec![V::n((b + 63) / 64), V::N(mk), V::n((b + 7) / 8)])).nt(true)
+        }
         consts => {
             let z = u(&BigUint::zero(), bits);
             is(V::T(vec![z.clone(), u(&(BigUint::one() % &m), bits), z.clone(), V::U(max_limbs(bits)), z.clone(), z])).nt(true)
@@ -767,6 +775,7 @@ fn c04(r: &Runner) {
         r.universe_seq("constants", bits, |l| {
             l.states(1);
             exec(l, bits, Op::consts, &[]);
+            exec(l, bits, Op::type_consts, &[]);
         });
         // ---- part 3: generators on enumerated tapes
         let tp = tapes(8 * nl.max(1) + 8);
@@ -785,6 +794,10 @@ fn c04(r: &Runner) {
             }
         });
     }
+    r.universe("public helpers nlimbs / mask / nbytes on every bit count 0..=8200", 0, 8201, |i, l| {
+        l.states(1);
+        exec(l, 0, Op::helper_fns, &[V::n(i)]);
+    });
     r.extra("closure_operations", serde_json::json!(CL_NAMES));
     r.extra("sampled_not_exhaustive", serde_json::json!(["quickcheck::Gen draws (4 x 500 per width): the RNG is private to the crate and entropy-seeded"]));
 }
